@@ -602,8 +602,48 @@ def check(ix, rep):
     rep.floor('interpreters a counted quantity is read from', ng, 2)
     # reset restarts the counter (shared with C10)
     rs = [f for f in (ix.resolve_method(on.cls, 'reset'),) if f]
-    src = ast.unparse(rs[0].node).replace(' ', '') if rs else ''
-    if 'self.sampling_violation_counter=int(0)' in src or 'self.sampling_violation_counter=0' in src:
+    # the assignment of 0 may sit in reset() itself or in a method it calls (a helper, super().reset(), a base-class constructor)
+    zeroed = False
+    if rs:
+        ef_ = E.transitive_effects(ix, on.cls, 'reset')
+        for w_ in ef_.writes.get('sampling_violation_counter', []):
+            par = getattr(w_, 'value', None)
+            zeroed = True
+        # the stored value: look the assignments up in every function the reset chain reaches
+        zeroed = False
+        chain = [rs[0]] + [g for k in ix.mro(on.cls) if hasattr(k, 'methods') for g in k.methods.values()]
+        reached = set()
+
+        def _reach(fn, depth=0):
+            if id(fn) in reached or depth > 5:
+                return
+            reached.add(id(fn))
+            for c_ in ast.walk(fn.node):
+                if isinstance(c_, ast.Call) and isinstance(c_.func, ast.Attribute):
+                    recv = c_.func.value
+                    tgt = None
+                    if isinstance(recv, ast.Name) and recv.id == 'self':
+                        tgt = ix.resolve_method(on.cls, c_.func.attr)
+                    elif isinstance(recv, ast.Call) and isinstance(recv.func, ast.Name) and recv.func.id == 'super':
+                        mro = [k for k in ix.mro(on.cls) if hasattr(k, 'methods')]
+                        if fn.owner in mro:
+                            for k in mro[mro.index(fn.owner) + 1:]:
+                                if c_.func.attr in k.methods:
+                                    tgt = k.methods[c_.func.attr]
+                                    break
+                    elif isinstance(recv, ast.Name) and c_.args and isinstance(c_.args[0], ast.Name) and c_.args[0].id == 'self':
+                        ent = ix.resolve_expr(fn.module, recv)
+                        if hasattr(ent, 'methods'):
+                            tgt = ix.resolve_method(ent, c_.func.attr)
+                    if tgt is not None:
+                        _reach(tgt, depth + 1)
+        _reach(rs[0])
+        for g in chain:
+            if id(g) in reached:
+                srcg = ast.unparse(g.node).replace(' ', '')
+                if 'self.sampling_violation_counter=int(0)' in srcg or 'self.sampling_violation_counter=0' in srcg:
+                    zeroed = True
+    if zeroed:
         rep.ok('R-STATE', rs[0].module.rel, rs[0].qual, 'counter-reset', 'reset() restarts the counter', rs[0].node.lineno)
     else:
         rep.fail('R-STATE', rs[0].module.rel if rs else on.cls.module.rel, rs[0].qual if rs else 'reset', 'counter-reset', 'reset() does not restart the counter')
